@@ -173,7 +173,7 @@ pub fn run(ctx: &Ctx) -> Report {
     let mut rep = Report::new("model_checking");
     // Bound 2 is always completed; thorough goes on to bound 3 under an
     // execution cap per scenario (reported when hit).
-    let passes: Vec<(usize, u64)> = if ctx.tier.thorough() { vec![(2, 3_000_000), (3, 400_000)] } else { vec![(2, 3_000_000)] };
+    let passes: Vec<(usize, u64)> = if ctx.tier.thorough() { vec![(2, 3_000_000), (3, 40_000)] } else { vec![(2, 3_000_000)] };
     let bound = passes.last().unwrap().0;
     let mut capped_in: Vec<String> = Vec::new();
     rep.rule = "2-4 threads each perform the listener's real connection \
@@ -226,8 +226,8 @@ pub fn run(ctx: &Ctx) -> Report {
         rep.bound = format!("preemption bound {bound}; all schedules within the bound executed");
     }
     else {
-        rep.bound = format!("preemption bound 2: all schedules executed; bound 3: all schedules in the scenarios not listed as capped, the first 400000 in the others");
-        rep.capped = Some(format!("bound 3: execution cap 400000 reached in {}", capped_in.join(", ")));
+        rep.bound = format!("preemption bound 2: all schedules executed; bound 3: all schedules in the scenarios not listed as capped, the first 40000 in the others");
+        rep.capped = Some(format!("bound 3: execution cap 40000 reached in {}", capped_in.join(", ")));
     }
     rep.assumptions.push("scheduling points at the registry's two loads, its store and its write mutex (hooks) and at open/close; the atomic counters are single RMW operations".into());
     rep
